@@ -204,6 +204,7 @@ fn run(c: &Case, ctx: &mut Ctx, tamper: bool) -> CaseResult {
 
 fn main() {
 	install_recording_signer();
+	netsim::rec::tolerate_monitor_roundtrip_tripwire();
 	let mut c = Check::new("C05", "exploration");
 	c.assume("both peers are unmodified LDK nodes except in the tamper part, where the harness corrupts one revoke_and_ack secret in flight");
 	c.assume("signer calls are observed through a recording signer installed with test_utils::SIGNER_FACTORY; TestChannelSigner's own enforcement panics also count as failures");
